@@ -225,7 +225,7 @@ class CoAPParser(HeaderParser):
                 except KeyError:
                     match = re.match(self.unknown_option_pattern, field_id)
                     if match:
-                        option_number = match.group(1)
+                        option_number = int(match.group(1))
                     else:
                         raise UnparserError(
                             decompressed_fields=decompressed_fields,
